@@ -10,6 +10,9 @@ CLAIMED = {
  "C09": dict(engine="W", cat="fault_enumeration", tech="deterministic simulation with fault injection: enumerated invalidity classes x configuration levels x seeded map-iteration schedules on generated worlds; scripted HTTP origin faults; exit-status/diagnostic/no-panic oracle",
    text="Every invalidity class the statement lists (missing interface, load/type error, unknown template/formatter/key, bad regex, cyclic templated value, schema-rejected template-data, per-file conflicts, template/schema retrieval faults through the simulated transport, unwritable output paths) is injected alone at every configuration level where mockery consults the setting, and in seeded pairs, into valid multi-package worlds run by the instrumented CLI under forced asc/desc (thorough: also random) iteration orders: exit must be non-zero with a diagnostic and no Go panic; valid-but-unusual worlds (function-local interfaces, build tags, doc-only packages, go.mod module-line spellings) must exit 0 with every configured mock on disk. The single-fault matrix is enumerated completely per baseline world; worlds and pairs are sampled.",
    ref="§4 C09", note="Trusted: fault injectors place each invalidity where the setting is consulted; `go list` and dependencies run for real, un-instrumented. Which files are written after a failure is judged by C10, not here."),
+ "C10": dict(engine="W", cat="fault_enumeration", tech="deterministic simulation with fault injection: initial tree states x force-file-write placement x one injected stage fault per run x seeded map-iteration schedules; before/after snapshot oracle against a differential reference run",
+   text="Generated multi-file worlds are run by the instrumented CLI from every combination class of initial output-path state (absent, previous generation, user content, directory), force-file-write placed at root/package/interface level, and one stage fault (template retrieval via file:// or the simulated transport, schema validation at package or interface level, template execution, formatting) aimed at one file, each under asc/desc/random iteration orders so the faulted file is reached first, in the middle and last. Snapshot oracle: no path outside the designated outputs changes, an existing path is never replaced without force-file-write (and the run then fails), every designated path holds its complete old state or the complete content of a fault-free reference run, and a faulted file keeps its old state. Fault kinds and initial states are enumerated; worlds and combinations are seeded samples.",
+   ref="§4 C10", note="Trusted: 'complete new content' comes from a fault-free reference run of the same binary; write errors/torn writes/crashes inside WriteFile are outside the statement and not injected."),
 }
 NA = {
  "C01": "pure (sources, configuration) -> bytes relation with no schedule, clock, fault or carried state; its only order-dependence residue is decided by C06",
